@@ -24,14 +24,23 @@ type ProtoName struct {
 	Name string `json:"name"     short:"n" long:"name"     description:"Unique endpoint name. Must match on the client and the server. E.g. 'ssh'."`
 }
 
+// DialAddress returns the address to dial or to listen on: host and port for network schemes, the socket's
+// file name for unix-domain schemes -- both in the 'unix://name.sock' and in the 'unix:///abs/path.sock' form.
+func (pa *ProtoAddress) DialAddress() string {
+	if strings.HasPrefix(pa.Scheme, "unix") {
+		return pa.Host + pa.Path
+	}
+	return pa.Host
+}
+
 func (pa *ProtoAddress) Addr() (net.Addr, error) {
 	switch pa.Scheme {
 	case "udp", "udp4", "udp6":
 		return net.ResolveUDPAddr(pa.Scheme, pa.Host)
 	case "unix", "unixgram", "unixpacket":
-		return net.ResolveUnixAddr(pa.Scheme, pa.Host)
+		return net.ResolveUnixAddr(pa.Scheme, pa.DialAddress())
 	case "unix+tls", "unixpacket+tls":
-		return net.ResolveUnixAddr(PlusEnd.ReplaceAllString(pa.Scheme, ""), pa.Host)
+		return net.ResolveUnixAddr(PlusEnd.ReplaceAllString(pa.Scheme, ""), pa.DialAddress())
 	case "tcp", "tpc4", "tcp6":
 		return net.ResolveTCPAddr(pa.Scheme, pa.Host)
 	case "tcp+tls", "tpc4+tls", "tcp6+tls":
